@@ -49,7 +49,7 @@ pub fn all() -> Vec<Prop> {
             id: "C01",
             run: props::quant::run_c01,
             replayers: props::quant::replayers,
-            rule: "Random: proptest cases = element type (i8..u64, usize, N64; N32 in thorough) x 1..4-D shape x axis x layout (C/F/permuted/stepped/reversed/padded view into a sentinel parent) x values (tiny alphabet, small, full width, type extremes; floats incl. signed zeros, subnormals, infinities, huge) x q recipes resolved against the lane length (0, 1, k/(N-1) and (k+1/2)/(N-1) each nudged by -2..2 ulp, 2^-1074, 1-2^-53, uniform) x 5 strategies x API (quantile_axis_mut, quantiles_axis_mut with 0..32 q, quantile_mut, quantiles_mut) x static/dynamic dimension x 1-2 pivot scripts (outputs must agree); distinct by hash of the whole case. Enumeration: all weak-order patterns of length <= 4 (quick) / 5 (thorough) x {i8,u16,N64} x 5 strategies x the boundary q set x ALL pivot sequences. Oracle: full sort of each lane, index = f64 product q*(N-1) (the exact-rational reading is also accepted when it differs), per-strategy acceptance in exact integer / dyadic arithmetic. Non-trivial: lane length >= 3, some lane not constant, and (lower index != higher index or q boundary-constructed). Cases matching the signature of the open known finding (Midpoint/Linear with a neighbour difference not representable in the element type) are counted as excluded, not judged.",
+            rule: "Random: proptest cases = element type (i8..u64, usize, N64; N32 in thorough) x 1..4-D shape x axis x layout (C/F/permuted/stepped/reversed/padded view into a sentinel parent) x values (tiny alphabet, small, full width, type extremes; floats incl. signed zeros, subnormals, infinities, huge) x q recipes resolved against the lane length (0, 1, k/(N-1) and (k+1/2)/(N-1) each nudged by -2..2 ulp, 2^-1074, 1-2^-53, uniform) x 5 strategies x API (quantile_axis_mut, quantiles_axis_mut with 0..32 q, quantile_mut, quantiles_mut) x static/dynamic dimension x 1-2 pivot scripts (outputs must agree); distinct by hash of the whole case. Enumeration: all weak-order patterns of length <= 5 (quick) / 6 (thorough) x {i8,u16,N64} x 5 strategies x the boundary q set x ALL pivot sequences. Oracle: full sort of each lane, index = f64 product q*(N-1) (the exact-rational reading is also accepted when it differs), per-strategy acceptance in exact integer / dyadic arithmetic. Non-trivial: lane length >= 3, some lane not constant, and (lower index != higher index or q boundary-constructed). Cases matching the signature of the open known finding (Midpoint/Linear with a neighbour difference not representable in the element type) are counted as excluded, not judged.",
             assumptions: COMMON_ASSUMPTIONS,
             profiles_quick: BOTH,
             profiles_thorough: BOTH,
@@ -82,7 +82,7 @@ pub fn all() -> Vec<Prop> {
             id: "C04",
             run: props::nan::run_c04,
             replayers: props::nan::replayers,
-            rule: "Enumeration: all 2^L missing/non-missing masks for L <= 12 (quick) / 16 (thorough) x the 14 MaybeNan impls (f32, f64, Option of u8..u128, i8..i128, N32, N64) x strides {-3,-2,-1,1,2,3} x offsets {0,1,2} inside a sentinel buffer, values distinct (distinct by construction). Random: proptest masks up to 60/200 elements incl. first-only/last-only/alternating/dense/sparse, strides up to +-7, and lanes of 1-3-D arrays in generated layouts taken along every axis with lanes_mut (distinct by hash). Oracle order: metadata of the returned view (pointer, length, stride) must designate distinct element addresses of the input view BEFORE anything is dereferenced; then multiset, no missing element, count, determinism, idempotence, typed references. Non-trivial: at least one missing and one non-missing element and (|stride| != 1 or offset != 0).",
+            rule: "Enumeration: all 2^L missing/non-missing masks for L <= 13 (quick) / 16 (thorough) x the 14 MaybeNan impls (f32, f64, Option of u8..u128, i8..i128, N32, N64) x strides {-3,-2,-1,1,2,3} x offsets {0,1,2} inside a sentinel buffer, values distinct (distinct by construction). Random: proptest masks up to 60/200 elements incl. first-only/last-only/alternating/dense/sparse, strides up to +-7, and lanes of 1-3-D arrays in generated layouts taken along every axis with lanes_mut (distinct by hash). Oracle order: metadata of the returned view (pointer, length, stride) must designate distinct element addresses of the input view BEFORE anything is dereferenced; then multiset, no missing element, count, determinism, idempotence, typed references. Non-trivial: at least one missing and one non-missing element and (|stride| != 1 or offset != 0).",
             assumptions: COMMON_ASSUMPTIONS,
             profiles_quick: BOTH,
             profiles_thorough: BOTH,
@@ -104,7 +104,7 @@ pub fn all() -> Vec<Prop> {
             id: "C06",
             run: props::means::run_c06,
             replayers: props::means::replayers_c06,
-            rule: "proptest: element type (f64, f32, i32, i64, u32, usize) x 1-3-D shape x axis x independent layouts for data and weights (two views of the same storage type into sentinel parents) x data class (mixed signs, halves with ties, common offset up to 2^20 with small spread, mixed magnitudes 2^+-40 / 2^+-12, positive) x weight class (quarters, wide ratios, uniform, zero at first/middle/last, sparse); signed weights for the sum forms. Oracle: inputs are dyadic rationals, so sum x, sum w x and their absolute counterparts are computed exactly with big integers; accepted error (2n+8)u * sum|terms| evaluated exactly (weighted_mean: cross-multiplied, no division); integers: exact equality incl. truncating division; per-axis forms lane by lane against the exact oracle; harmonic mean against 200-bit reciprocals, geometric mean against exp of a compensated f64 mean log. Distinct by hash. Non-trivial: n >= 3 and (non-uniform weights or mixed signs).",
+            rule: "proptest: element type (f64, f32, i32, i64, u32, usize) x 1-3-D shape x axis x independent layouts for data and weights (two views of the same storage type into sentinel parents) x data class (mixed signs, halves with ties, common offset up to 2^20 with small spread, mixed magnitudes 2^+-40 / 2^+-12, positive) x weight class (quarters, wide ratios, uniform, zero at first/middle/last, sparse, uniformly tiny 2^-40..2^-90); signed weights for the sum forms. Oracle: inputs are dyadic rationals, so sum x, sum w x and their absolute counterparts are computed exactly with big integers; accepted error (2n+8)u * sum|terms| evaluated exactly (weighted_mean: cross-multiplied, no division); integers: exact equality incl. truncating division; per-axis forms lane by lane against the exact oracle; harmonic mean against 200-bit reciprocals, geometric mean against exp of a compensated f64 mean log. Distinct by hash. Non-trivial: n >= 3 and (non-uniform weights or mixed signs).",
             assumptions: NUM_ASSUMPTIONS,
             profiles_quick: BOTH,
             profiles_thorough: BOTH,
@@ -137,7 +137,7 @@ pub fn all() -> Vec<Prop> {
             id: "C09",
             run: props::pairs::run_c09,
             replayers: props::pairs::replayers_c09,
-            rule: "proptest: element type (i32, i64, f64, f32, BigInt) x 1-4-D shape x independent layouts for the two operands x ownership pairing (view/owned/shared for each operand) x values (integer magnitudes bounded from n so nothing overflows; floats as in C06; NaN only to exercise count_eq/count_neq) with a share of equal positions. Oracle: element-wise loop over logical indexes in exact arithmetic (i128 / dyadic): count_eq exact and count_eq+count_neq == len; sq_l2/l1/linf exact for integers, within (2n+8)u of the exact value for floats (linf: 2u); l2, mean_abs_err, mean_sq_err, root_mean_sq_err, PSNR recomputed from the exact base with the documented formula; symmetry (exact for integers) and d(a,a) = 0. Distinct by hash. Non-trivial: >= 2 elements, >= 2 differing positions and operands with different layouts or ownership.",
+            rule: "proptest: element type (i32, i64, f64, f32, BigInt) x 1-4-D shape x independent layouts for the two operands x ownership pairing (view/owned/shared for each operand) x values (integer magnitudes bounded from n so nothing overflows; floats as in C06; NaN only to exercise count_eq/count_neq) with a share of equal positions. Oracle: element-wise loop over logical indexes in exact arithmetic (i128 / dyadic): count_eq exact and count_eq+count_neq == len; sq_l2/l1/linf exact for integers, within (2n+8)u of the exact value for floats (linf: 2u); l2, mean_abs_err, mean_sq_err, root_mean_sq_err, PSNR recomputed from the exact base with the documented formula; symmetry (exact for integers) and d(a,a) = 0. A second checker feeds two ALIASING views of one buffer (a square matrix and its transpose; a prefix and an every-second-element view: same first element, different strides) and demands the exact values. Distinct by hash. Non-trivial: >= 2 elements, >= 2 differing positions and operands with different layouts or ownership.",
             assumptions: NUM_ASSUMPTIONS,
             profiles_quick: BOTH,
             profiles_thorough: BOTH,
@@ -148,7 +148,7 @@ pub fn all() -> Vec<Prop> {
             id: "C10",
             run: props::pairs::run_c10,
             replayers: props::pairs::replayers_c10,
-            rule: "proptest: f64/f32 arrays of 1-3 dimensions, p and q non-negative finite (k/4096, zeros, m 2^e), normalised or not, independent layouts for p and q, NaN placements in 10% of the cases. Oracle: -sum x ln x, -sum p ln q, -sum p ln(q/p) by f64 libm with compensated summation, zero-p terms contributing exactly 0 (so p=0 with q=NaN or q=0 stays finite), budget 2(2n+8)u sum|terms| (KL: + sum|p|); p>0 with q=0 => +inf; result NaN <=> a NaN in a contributing term; identities KL(p,p) == 0, |H(p,q) - H(p) - KL(p,q)| within the summed budgets, KL >= -tol and H(p) <= ln n + tol for normalised input (normalisation defect charged). Distinct by hash. Non-trivial: >= 3 elements, resolving, and (a zero in p or q, or different layouts).",
+            rule: "proptest: f64/f32 arrays of 1-3 dimensions, p and q non-negative finite (k/4096, zeros, m 2^e), normalised or not, independent layouts for p and q, NaN placements in 10% of the cases. Oracle: -sum x ln x, -sum p ln q, -sum p ln(q/p) by f64 libm with compensated summation, zero-p terms contributing exactly 0 (so p=0 with q=NaN or q=0 stays finite), budget 2(2n+8)u sum|terms| (KL: + sum|p|); p>0 with q=0 => +inf; result NaN <=> a NaN in a contributing term; identities KL(p,p) == 0 (NaN when p holds a NaN), p against a reversed-axes view of its own buffer for shapes that read the same backwards, |H(p,q) - H(p) - KL(p,q)| within the summed budgets, KL >= -tol and H(p) <= ln n + tol for normalised input (normalisation defect charged). Distinct by hash. Non-trivial: >= 3 elements, resolving, and (a zero in p or q, or different layouts).",
             assumptions: NUM_ASSUMPTIONS,
             profiles_quick: BOTH,
             profiles_thorough: BOTH,
@@ -159,7 +159,7 @@ pub fn all() -> Vec<Prop> {
             id: "C11",
             run: props::hist::run_c11,
             replayers: props::hist::replayers_c11,
-            rule: "proptest histories: grid of 1-3 axes, each axis an arbitrary edge list (unsorted, duplicates, 0/1/2..8 edges; i32, i64, N64), 0..60 (quick) / 120 (thorough) add_observation operations with coordinates drawn from the edges themselves, their neighbours, below the first and beyond the last edge. Model: dictionary index-tuple -> count with bin lookup by linear scan. After EVERY step counts() is compared with the model at every index, its shape with grid.shape(), and the return value with the model (BinNotFound <=> no bin; a rejected insert changes nothing). Then the same observations as a row-major matrix, a column-major matrix and in a permuted order through HistogramExt::histogram. Distinct by hash. Non-trivial: >= 2 axes with different bin counts, at least one accepted, one rejected and one on-an-edge observation.",
+            rule: "proptest histories: grid of 1-3 axes, each axis an arbitrary edge list (unsorted, duplicates, 0/1/2..8 edges; i32, i64, N64), 0..60 (quick) / 120 (thorough) add_observation operations with coordinates drawn from the edges themselves, their neighbours, below the first and beyond the last edge. Model: dictionary index-tuple -> count with bin lookup by linear scan. After EVERY step counts() is compared with the model at every index, its shape with grid.shape(), and the return value with the model (BinNotFound <=> no bin; a rejected insert changes nothing). Every second insert hands the point over as a reversed (stride -1) view. Then the same observations as a row-major matrix, a column-major matrix, a matrix view with a reversed column axis and in a permuted order through HistogramExt::histogram. Distinct by hash. Non-trivial: >= 2 axes with different bin counts, at least one accepted, one rejected and one on-an-edge observation.",
             assumptions: COMMON_ASSUMPTIONS,
             profiles_quick: BOTH,
             profiles_thorough: BOTH,
@@ -181,7 +181,7 @@ pub fn all() -> Vec<Prop> {
             id: "C13",
             run: props::hist::run_c13,
             replayers: props::hist::replayers_c13,
-            rule: "Enumeration: every sequence of length <= 6 (quick) / 7 (thorough) over the alphabet {0,2,..,2L} as edge input (every multiset and every order; via From<Vec> and From<Array1>), probed with every integer in -1..2L+1 (below, on, between, above). Random: i64/i32/u8/N64 edge lists up to 200 values, probes on and next to every edge; grids of 1-3 axes with every accessor (ndim, shape, projections, index_of, index incl. out-of-range tuples). Oracle: BTreeSet for the edges, linear scan e_i <= v < e_(i+1) for lookup, mutual consistency of indices_of / index_of / range_of / index. Non-trivial: >= 3 distinct edges and a probe strictly inside or on an interior edge (edges); >= 2 axes with >= 3 edges each and a point inside (grid).",
+            rule: "Enumeration: every sequence of length <= 6 (quick) / 7 (thorough) over the alphabet {0,2,..,2L} as edge input (every multiset and every order; via From<Vec> and From<Array1>, the owned Array1 being built from a Vec, sliced in place with a step, inverted in place or sliced in place to an offset sub-range), probed with every integer in -1..2L+1 (below, on, between, above). Random: i64/i32/u8/N64 edge lists up to 200 values, probes on and next to every edge; grids of 1-3 axes with every accessor (ndim, shape, projections, index_of, index incl. out-of-range tuples). Oracle: BTreeSet for the edges, linear scan e_i <= v < e_(i+1) for lookup, mutual consistency of indices_of / index_of / range_of / index. Non-trivial: >= 3 distinct edges and a probe strictly inside or on an interior edge (edges); >= 2 axes with >= 3 edges each and a point inside (grid).",
             assumptions: COMMON_ASSUMPTIONS,
             profiles_quick: BOTH,
             profiles_thorough: BOTH,
@@ -203,7 +203,7 @@ pub fn all() -> Vec<Prop> {
             id: "C15",
             run: props::sel::run_c15,
             replayers: props::sel::replayers,
-            rule: "Enumeration: every weak-order pattern of length 1..7 (quick) / 1..8 (thorough) x every pivot position x view strides {1,2,3,-1,-2} inside a sentinel buffer (distinct by construction). Random: proptest arrays up to 60/500 elements, distinct by hash. Non-trivial: length >= 2; the length-1 in-range calls (where the unrepaired code panicked) are counted separately in classes.",
+            rule: "Enumeration: every weak-order pattern of length 1..8 (quick) / 1..9 (thorough) x every pivot position x view strides {1,2,3,-1,-2} inside a sentinel buffer (distinct by construction). Random: proptest arrays up to 60/500 elements, distinct by hash. Non-trivial: length >= 2; the length-1 in-range calls (where the unrepaired code panicked) are counted separately in classes.",
             assumptions: COMMON_ASSUMPTIONS,
             profiles_quick: BOTH,
             profiles_thorough: BOTH,
@@ -214,7 +214,7 @@ pub fn all() -> Vec<Prop> {
             id: "C16",
             run: props::sel::run_c16,
             replayers: props::sel::replayers,
-            rule: "Enumeration: lengths 0..6/7 x every weak-order pattern x positions {n, n+1, 2n+3, MAX/2, MAX} x every pivot sequence (single selection); every subset (size <= 4) of {0..n-1, n, n+2, MAX} containing an out-of-range entry x every pivot sequence (bulk); partition_mut at the same out-of-range positions x 5 strides; in-range calls on lengths 1..4/5 under every pivot sequence. Random: proptest with 50% out-of-range requests, plus Bins::index / Grid::index with out-of-range entries per axis. Both build profiles. Oracle: unwinds <=> some position >= length. Non-trivial: an out-of-range call on a non-empty array, or an in-range call on length >= 2 (the enumerations additionally cover lengths 1 and 2 completely).",
+            rule: "Enumeration: lengths 0..7/8 x every weak-order pattern x positions {n, n+1, 2n+3, MAX/2, MAX} x every pivot sequence (single selection); every subset (size <= 4) of {0..n-1, n, n+2, MAX} containing an out-of-range entry x every pivot sequence (bulk); partition_mut at the same out-of-range positions x 5 strides; in-range calls on lengths 1..5/6 under every pivot sequence. Random: proptest with 50% out-of-range requests, plus Bins::index / Grid::index with out-of-range entries per axis. Both build profiles. Oracle: unwinds <=> some position >= length. Non-trivial: an out-of-range call on a non-empty array, or an in-range call on length >= 2 (the enumerations additionally cover lengths 1 and 2 completely).",
             assumptions: COMMON_ASSUMPTIONS,
             profiles_quick: BOTH,
             profiles_thorough: BOTH,
@@ -225,7 +225,7 @@ pub fn all() -> Vec<Prop> {
             id: "C17",
             run: props::errors::run_c17,
             replayers: props::errors::replayers,
-            rule: "Enumerated decision table, not sampled: 47 fallible public routines (QuantileExt x9, Quantile1dExt x2, SummaryStatisticsExt x15, DeviationExt x10, EntropyExt x3, CorrelationExt x2, five strategies' from_array, GridBuilder::from_array) x first-input scenario {non-empty, empty 1-D, empty through a zero-length axis at a generated position, 0-D} x second-argument scenario {same shape, different shape with equal element count, different shape, different rank, emptiness differs; for axis weights: equal / longer / shorter / empty} x q scenario {valid (incl. empty request list), q<0 (-0.1, -5e-324, -1, -inf), q>1 (1+ulp, 1.5, 2, +inf), several invalid in different positions} x {float, integer} element type x 3 layouts (C, F, stepped+reversed view); every populated cell is instantiated with 24 (quick) / 1200 (thorough) seeded shape instances. Oracle: the expected cell value derived from the doc comments (InvalidQuantile(first offending q) before anything else; quantiles: EmptyInput <=> chosen axis has length 0; guarded routines: EmptyInput <=> first input empty, else ShapeMismatch{first_shape, second_shape} with payload compared; weighted_sum(_axis): no emptiness error), never a panic. Cells without documented behaviour are left out (cov with zero observations, GridBuilder with zero columns, constant strategy input). Distinct by hash of the instance. Non-trivial: an instance whose expected outcome is an error.",
+            rule: "Enumerated decision table, not sampled: 47 fallible public routines (QuantileExt x9, Quantile1dExt x2, SummaryStatisticsExt x15, DeviationExt x10, EntropyExt x3, CorrelationExt x2, five strategies' from_array, GridBuilder::from_array) x first-input scenario {non-empty, empty 1-D, empty through a zero-length axis at a generated position, 0-D} x second-argument scenario {same shape, different shape with equal element count, different shape, different rank, emptiness differs; for axis weights: equal / longer / shorter / empty} x q scenario {valid (incl. empty request list), q<0 (-0.1, -5e-324, -1, -inf), q>1 (1+ulp, 1.5, 2, +inf), several invalid in different positions} x {float, integer} element type x 3 layouts (C, F, stepped+reversed view); every populated cell is instantiated with 100 (quick) / 2000 (thorough) seeded shape instances. Oracle: the expected cell value derived from the doc comments (InvalidQuantile(first offending q) before anything else; quantiles: EmptyInput <=> chosen axis has length 0; guarded routines: EmptyInput <=> first input empty, else ShapeMismatch{first_shape, second_shape} with payload compared; weighted_sum(_axis): no emptiness error), never a panic. Cells without documented behaviour are left out (cov with zero observations, GridBuilder with zero columns, constant strategy input). Distinct by hash of the instance. Non-trivial: an instance whose expected outcome is an error.",
             assumptions: COMMON_ASSUMPTIONS,
             profiles_quick: BOTH,
             profiles_thorough: BOTH,
@@ -247,7 +247,7 @@ pub fn all() -> Vec<Prop> {
             id: "C19",
             run: props::order::run_c19,
             replayers: props::order::replayers,
-            rule: "proptest lanes of every Ord element type (values as in C01; 64-bit integers below 2^52) with 1..13 boundary-constructed q plus 0 and 1, sorted; for each of the 5 strategies: non-decreasing in q, Q(0)=min, Q(1)=max, within [min,max]; Lower <= Nearest/Midpoint/Linear <= Higher at equal q; all five equal when the f64 product (N-1)q is integral; equal results on a generated permutation of the lane; Lower/Higher/Nearest commute with a generated strictly increasing relabelling table. Float Midpoint/Linear order relations get a slack of 2 ulp of the largest lane magnitude. Enumeration: ALL permutations of a distinct and a tied i32 lane of length <= 6 (quick) / 8 (thorough). Distinct by hash (random) / by construction (permutations). Non-trivial: >= 3 distinct values and (a q pair straddling/touching an index boundary, or a non-identity permutation, or a relabelling).",
+            rule: "proptest lanes of every Ord element type (values as in C01; 64-bit integers below 2^52) with 1..13 boundary-constructed q plus 0 and 1, sorted; for each of the 5 strategies: non-decreasing in q, Q(0)=min, Q(1)=max, within [min,max]; Lower <= Nearest/Midpoint/Linear <= Higher at equal q; all five equal when (N-1)q is integral (required when the IEEE product and the exact rational product agree on that, since C01 accepts either reading of the documented index); equal results on a generated permutation of the lane; Lower/Higher/Nearest commute with a generated strictly increasing relabelling table. Float Midpoint/Linear order relations get a slack of 2 ulp of the largest lane magnitude. Enumeration: ALL permutations of a distinct and a tied i32 lane of length <= 7 (quick) / 8 (thorough). Distinct by hash (random) / by construction (permutations). Non-trivial: >= 3 distinct values and (a q pair straddling/touching an index boundary, or a non-identity permutation, or a relabelling).",
             assumptions: COMMON_ASSUMPTIONS,
             profiles_quick: BOTH,
             profiles_thorough: BOTH,
